@@ -16,6 +16,7 @@
      evaluations (C09-d).
  (6) Round 7: includes the Auto typestate rule (C17-a): the before-pack hook writes the hidden
      field and nothing else, so every pack recomputes what was left automatic.
+ (7) Round 8: includes the generated-codec rule of C05 (values leave the input through struct only).
 Equality of the re-parsed values for all consistent assignments, and whether an assignment is
 "consistent", are not decided.
 """
